@@ -188,14 +188,20 @@ func TestC08(t *testing.T) {
 					if rng.Bool() || typ.Kind() == reflect.Interface && v == nil {
 						alive = step(fmt.Sprintf("Set(%s)", show(v)), func() { vm.Set(v) })
 					} else {
-						fn := reflect.MakeFunc(reflect.FuncOf(nil, []reflect.Type{typ}, false), func([]reflect.Value) []reflect.Value {
-							w := reflect.New(typ).Elem()
+						rt := typ
+						if typ.Kind() == reflect.Interface && v != nil && rng.Bool() {
+							// the callback is declared with the concrete type of what it returns (func() *MyErr for an
+							// error variable): assignable to the variable, not identical with its type
+							rt = reflect.TypeOf(v)
+						}
+						fn := reflect.MakeFunc(reflect.FuncOf(nil, []reflect.Type{rt}, false), func([]reflect.Value) []reflect.Value {
+							w := reflect.New(rt).Elem()
 							if v != nil {
 								w.Set(reflect.ValueOf(v))
 							}
 							return []reflect.Value{w}
 						}).Interface()
-						alive = step(fmt.Sprintf("Apply(->%s)", show(v)), func() { vm.Apply(fn) })
+						alive = step(fmt.Sprintf("Apply(func() %s ->%s)", rt, show(v)), func() { vm.Apply(fn) })
 					}
 					if !alive {
 						break
